@@ -43,6 +43,8 @@ type c16Case struct {
 	// goroutine could at that very point: "close" = Client.Close(), "debugon" = debug logging was off
 	// when Auth started and is switched on now.
 	Mid string `json:"mid,omitempty"`
+	// MidStep: at which challenge (1-based) the action happens.
+	MidStep int `json:"mid_step,omitempty"`
 }
 
 // midAuth wraps an smtp.Auth and runs a hook when the first challenge arrives, i.e. between two
@@ -50,13 +52,16 @@ type c16Case struct {
 type midAuth struct {
 	smtp.Auth
 	hook func()
-	done bool
+	at   int
+	n    int
 }
 
 func (m *midAuth) Next(fromServer []byte, more bool) ([]byte, error) {
-	if more && !m.done {
-		m.done = true
-		m.hook()
+	if more {
+		m.n++
+		if m.n == m.at {
+			m.hook()
+		}
 	}
 	return m.Auth.Next(fromServer, more)
 }
@@ -216,9 +221,9 @@ func c16Run(c c16Case) []*core.Violation {
 			}
 			switch c.Mid {
 			case "close":
-				a = &midAuth{Auth: a, hook: func() { _ = sc.Close() }}
+				a = &midAuth{Auth: a, at: max(c.MidStep, 1), hook: func() { _ = sc.Close() }}
 			case "debugon":
-				a = &midAuth{Auth: a, hook: func() { sc.SetDebugLog(true); debugWasOn = true }}
+				a = &midAuth{Auth: a, at: max(c.MidStep, 1), hook: func() { sc.SetDebugLog(true); debugWasOn = true }}
 			}
 			if dialErr = sc.Auth(a); dialErr != nil {
 				return nil
@@ -353,6 +358,12 @@ func c16Run(c c16Case) []*core.Violation {
 			}
 		}
 	}
+	if wire == "CRAM-MD5" {
+		// what the client derives from the secret is known to the harness even if the line never
+		// reached the server (e.g. because the write failed)
+		digest := refsasl.CramDigest(c.Pass, "<4711.1234567@ref.verif.example>")
+		secretLines = append(secretLines, digest, base64.StdEncoding.EncodeToString([]byte(c.User+" "+digest)))
+	}
 	for _, sl := range secretLines {
 		if l, ok := find(sl); ok {
 			vs = append(vs, core.V("sasl-response-in-log", "the SASL response %q (carries the secret or a proof derived from it) appears in a log record: %q (mechanism %s, logger %s)", clipS(sl), clipS(l), c.Mech, c.Logger))
@@ -398,7 +409,7 @@ func c16Run(c c16Case) []*core.Violation {
 		rec.Class("exchange:ok")
 	}
 	if responses >= 2 || abnormal {
-		rec.NonTrivial(core.Join(c.Mech, c.TLS, c.Wrong, strings.Join(keys, ","), c.Extra, c.Logger, c.SendMsg, c.Direct, c.NoHello, c.Mid, core.Hash(c.Pass)))
+		rec.NonTrivial(core.Join(c.Mech, c.TLS, c.Wrong, strings.Join(keys, ","), c.Extra, c.Logger, c.SendMsg, c.Direct, c.NoHello, c.Mid, c.MidStep, core.Hash(c.Pass)))
 		rec.Sample(c.Mech+"/"+c.Logger+fmt.Sprint(abnormal), map[string]interface{}{"mech": c.Mech, "tls": c.TLS, "wrong_password": c.Wrong, "faults": keys, "extra_challenge": c.Extra, "logger": c.Logger, "log_records": nrecs, "secret_lines_checked": len(secretLines), "dial_error": fmt.Sprint(dialErr), "send_error": fmt.Sprint(sendErr)})
 	}
 	return vs
@@ -430,6 +441,7 @@ func c16Gen(t *rapid.T) c16Case {
 		c.Direct = true
 		c.NoHello = rapid.Bool().Draw(t, "nohello")
 		c.Mid = rapid.SampledFrom([]string{"", "", "close", "debugon"}).Draw(t, "mid")
+		c.MidStep = rapid.IntRange(1, 2).Draw(t, "midstep")
 		c.Mech = strings.TrimSuffix(c.Mech, "-NOENC")
 	}
 	c.Steps = map[string]refsmtp.Outcome{}
